@@ -271,3 +271,8 @@ func runOne(h func()) (outcome, detail string) {
 	h()
 	return "ok", ""
 }
+
+// Exists: the engine checks that cond is satisfiable on the current path
+// (an existential obligation); natively it is a no-op — harnesses decide the
+// same obligation by enumeration under Replaying().
+func Exists(cond bool, label string) {}
